@@ -23,6 +23,9 @@ func (keyExchange *KeyExchange) Marshal() ([]byte, error) {
 }
 
 func (keyExchange *KeyExchange) Unmarshal(b []byte) error {
+	if len(b) == 0 {
+		return errors.Errorf("KeyExchange: Empty payload body")
+	}
 	if len(b) > 0 {
 		// bounds checking
 		if len(b) <= 4 {
